@@ -890,12 +890,20 @@ def tables(ctx, texts=None):
 
 
 def _tables_cached(ctx):
-    c = getattr(ctx, '_cache', None)
-    if c is None:
-        return tables(ctx)
-    if 'dD7.tables' not in c:
-        c['dD7.tables'] = tables(ctx)
-    return c['dD7.tables']
+    # The abstract interpreter is recursive (MAX_DEPTH analysed C calls, each a few dozen Python frames deep) and the check driver adds its own
+    # frames: give the walk room, so that the bounded-depth test of call_func decides, not Python's default recursion limit.
+    import sys
+    old = sys.getrecursionlimit()
+    sys.setrecursionlimit(max(old, 20000))
+    try:
+        c = getattr(ctx, '_cache', None)
+        if c is None:
+            return tables(ctx)
+        if 'dD7.tables' not in c:
+            c['dD7.tables'] = tables(ctx)
+        return c['dD7.tables']
+    finally:
+        sys.setrecursionlimit(old)
 
 
 def _line_of(funcs, path, fallback):
